@@ -47,6 +47,9 @@ func (p *c19) Bounds(tier string) map[string]interface{} {
 
 func (p *c19) Cases(tier string, emit func(interface{})) {
 	for _, lf := range typesLeaves() {
+		if lf == "ad" {
+			continue // anydata has no defined XML form in the library (it prints the Go value)
+		}
 		emit(c19Case{Part: "values", Schema: "types", Leaf: lf})
 	}
 	for _, sc := range []string{"base", "keys", "choice", "multi"} {
